@@ -1,7 +1,7 @@
 From Coq Require Import ZArith Lia.
 From RsdnsModel Require Import Base GenConst GenCursor GenHeader GenSpec Cursor Names Labels Header Tracker RData Reader Writer.
-From RsdnsModel.Spec Require Import WireName.
-From RsdnsModel.Proofs Require Import CursorSafe ListN Bits WriterLayout RecordRT.
+From RsdnsModel.Spec Require Import WireName RDataWire.
+From RsdnsModel.Proofs Require Import CursorSafe ListN Bits WriterLayout RecordRT RDataRT.
 From RsdnsModel.Properties Require Import C02.
 Open Scope N_scope.
 Check (C02_header_fields : forall msg, 12 <= lenN msg ->
@@ -29,4 +29,7 @@ Check (C02_fixed_part_roundtrip : forall msg pre post c p s ty cl ttl rdlen,
   msg = pre ++ fixed_wire ty cl ttl rdlen ++ post -> cwf msg c -> pos c = lenN pre -> lenN pre + 10 <= lim c ->
   ty < 65536 -> cl < 65536 -> ttl < 4294967296 -> rdlen < 65536 ->
   m_raw_marker msg p s c = (c_set_pos c (lenN pre + 10), Ok (mkMarker p (lenN pre) ty cl ttl rdlen s))).
-Print Assumptions C02_header_fields. Print Assumptions C02_flags. Print Assumptions C02_opt_fields. Print Assumptions C02_opt_do. Print Assumptions C02_a_record_roundtrip_plain. Print Assumptions C02_fixed_part_roundtrip.
+Check (C02_rdata_roundtrip_all_types : forall msg ty a,
+  rdata_type_ok ty a = true -> ardata_ok a = true ->
+  exists m, read_rdata msg ty (lenN (rdata_enc a)) = Some m /\ consumesW msg m (rdata_enc a) (rdata_val a)).
+Print Assumptions C02_header_fields. Print Assumptions C02_flags. Print Assumptions C02_opt_fields. Print Assumptions C02_opt_do. Print Assumptions C02_a_record_roundtrip_plain. Print Assumptions C02_fixed_part_roundtrip. Print Assumptions C02_rdata_roundtrip_all_types.
